@@ -97,6 +97,53 @@ def pat_of(text):
     return [t.text for t in code_tokens(lex(text))]
 
 
+_OPEN = {"(": ")", "[": "]", "{": "}"}
+
+
+def find_seq_wild(toks, lo, hi, pat, k=1):
+    """like find_seq, but pattern tokens `__1`, `__2`, .. match a non-empty, bracket-balanced run of tokens that ends where the next
+    pattern token matches at depth 0.  Returns (start, end, {name: (a, b)}) or None."""
+    def match_at(i, pj, binds):
+        while pj < len(pat):
+            pt = pat[pj]
+            if pt.startswith("__") and pt[2:].isdigit():
+                if pj + 1 >= len(pat):
+                    return None
+                nxt = pat[pj + 1]
+                depth, j = 0, i
+                while j < hi:
+                    tt = toks[j].text
+                    if depth == 0 and j > i and tt == nxt:
+                        r = match_at(j, pj + 1, dict(binds, **{pt: (i, j)}))
+                        if r is not None:
+                            return r
+                    if tt in _OPEN:
+                        depth += 1
+                    elif tt in _OPEN.values():
+                        depth -= 1
+                        if depth < 0:
+                            return None
+                    elif tt == ";" and depth == 0:
+                        return None
+                    j += 1
+                return None
+            if i >= hi or toks[i].text != pt:
+                return None
+            i += 1
+            pj += 1
+        return (i, binds)
+    seen = 0
+    for i in range(lo, hi):
+        if toks[i].text != pat[0]:
+            continue
+        r = match_at(i, 0, {})
+        if r is not None:
+            seen += 1
+            if seen == k:
+                return (i, r[0], r[1])
+    return None
+
+
 class Edits:
     def __init__(self):
         self.before = {}     # token idx -> [text]
@@ -467,10 +514,14 @@ def _emit_fn(unit, fs, it, out, rules):
             p = pat_of(old)
             kk = 1
             while True:
-                s = find_seq(toks, bo, bc + 1, p, kk)
-                if s is None:
+                m = find_seq_wild(toks, bo, bc + 1, p, kk)
+                if m is None:
                     break
-                ed.replace(s, s + len(p), new)
+                s, e, binds = m
+                text = new
+                for (nm, (wa, wb)) in binds.items():
+                    text = text.replace(nm, " ".join(t.text for t in toks[wa:wb]))
+                ed.replace(s, e, text)
                 _bump(rules, "declared unit rewrite `%s` => `%s`" % (old, new))
                 kk += 1
         for (path, stub) in unit.opaque_calls:
